@@ -85,8 +85,10 @@ for alias, entry, repl, kw in (('raw64', 'dfcc_raw64', [], {}), ('raw32', 'dfcc_
     job(id='C20.dfcc.' + alias, tu='tier_a/random.cpp', entry=entry, props=['C20'], objbits=10, timeout=300, mode='dfcc',      # (SMT-decided: no C11 claim rides on them, see above)
         dfcc={'contracts': RNG_SPEC, 'enforce': [alias], 'replace': repl}, carriers=[r'SimpleRandomT<[48]u>::(raw|uint)(32|64)'],
         case_key='contract ' + alias, **(dict(kw, unwind=kw.get('unwind', 6))))
-job(id='C20.dfcc.uniform', tu='tier_a/random.cpp', entry='dfcc_uniform', props=['C20', 'C11'], objbits=8, timeout=300, mode='dfcc', unwind=3,
-    dfcc={'contracts': RNG_SPEC, 'enforce': ['uniform32', 'uniform64']}, carriers=[r'hfsm2::detail::uniform'], case_key='contract uniform')
+# goto-instrument --dfcc enforces ONE contract per run (a second --enforce-contract is silently dropped): one job per function
+for w_ in ('32', '64'):
+    job(id='C20.dfcc.uniform' + w_, tu='tier_a/random.cpp', entry='dfcc_uniform' + w_, props=['C20', 'C11'], objbits=8, timeout=300, mode='dfcc', unwind=3,
+        dfcc={'contracts': RNG_SPEC, 'enforce': ['uniform' + w_]}, carriers=[r'hfsm2::detail::uniform'], case_key='contract uniform' + w_)
 
 # ------------------------------------------------------------------ C18 bit arrays and streams
 BA_CARRIERS = [r'BitArrayT<\d+u>::get<', r'BitArrayT<\d+u>::set<', r'BitArrayT<\d+u>::clear<', r'BitArrayT<\d+u>::empty', r'BitArrayT<\d+u>::operator&=',
